@@ -12,10 +12,17 @@ func ByName(a, b string) bool {
 	return a < b
 }
 
+// ByNameSmart orders numbers by magnitude and before any non-number;
+// equal numbers in different spellings, and non-numbers, are in text order
 func ByNameSmart(a, b string) bool {
 	v0, err0 := strconv.ParseFloat(a, 64)
 	v1, err1 := strconv.ParseFloat(b, 64)
-	if err0 == nil && err1 == nil {
+	num0 := err0 == nil && v0 == v0 // NaN has no magnitude
+	num1 := err1 == nil && v1 == v1
+	if num0 != num1 {
+		return num0
+	}
+	if num0 && v0 != v1 {
 		return v0 < v1
 	}
 	return a < b
